@@ -73,10 +73,12 @@
          a list of events containing exactly (length items + 1) calls of next(): one per
          item plus the final one that returns None.  "Front to back" is the order in which
          C16_extend_loop_is_inserts / l_extend walk the list (head first).
+       C16_s_source_pulled_once : the same count for Set (s_extend_loop).
 
    PARTLY COVERED / NOT COVERED BY A THEOREM
-     - the pull count is stated for normal return only (panic postcondition True), and for
-       Map; the Set twin (Bulk.s_source_pulled_once) exists but is not part of this file.
+     - the pull count is stated for normal return only (panic postcondition True); the Set
+       twin is now C16_s_source_pulled_once (for the loop s_extend_loop; there is no Set
+       analogue of C16_from_iter_pulled_once: s_from_iter is `finally_drop` around that loop).
      - a source whose next() panics, or an unlawful ==: only memory safety and the absence of
        leaks/double drops are claimed (Safety2.from_iter_safe, Safety2.keeps_extend_loop,
        Safety3.s_from_iter_safe in Props/C04.v; Owned.from_iter_acct in Props/C02.v).
@@ -253,6 +255,24 @@ Theorem C16_s_from_iter_lawful :
 Proof. exact (@s_from_iter_lawful). Qed.
 Print Assumptions C16_s_from_iter_lawful.
 
+(* Bulk.s_source_pulled_once: the Set twin of C16_source_pulled_once - Set::extend
+   (and hence collect / From<[T; N]>) pulls its source exactly length items + 1
+   times on normal return *)
+Theorem C16_s_source_pulled_once :
+  forall (K Q T : Type) (E : env K unit Q T) (debug : bool) (ck : K -> N) (cq : Q -> N),
+    Lawful E ck cq ->
+    forall (nx : T -> ans * T) (items : list K) (w : world K unit T),
+      (forall s : T, fst (nx s) <> Boom) ->
+      WF (self w) ->
+      wp (s_extend_loop E debug nx items)
+         (fun (_ : unit) (w' : world K unit T) =>
+            exists evs : list event,
+              log w' = log w ++ evs /\ length (filter is_pull evs) = S (length items))
+         (fun _ : world K unit T => True)
+         w.
+Proof. exact (@s_source_pulled_once). Qed.
+Print Assumptions C16_s_source_pulled_once.
+
 (* -------------------------------------------------------------------------- *)
 (* Bulk.l_extend_fold                                                          *)
 Theorem C16_l_extend_fold :
@@ -346,3 +366,12 @@ Example C16_example_run_set :
         log := [EvCall 1; EvCall 1; EvCall 1; EvDrop 5; EvCall 1];
         self := {| len := 2; slots := [Some (k_ 1 5, tt); Some (k_ 3 6, tt)] |} |}.
 Proof. vm_compute. reflexivity. Qed.
+
+(* Set::extend onto a non-empty set: 3 items, 4 pulls (EvCall 1 is next()) *)
+Example C16_example_run_set_extend :
+  match s_extend_loop (env_set C16_sc0) false nx_none [k_ 1 5; k_ 3 6; k_ 5 5]
+                      {| cb := cs0; log := []; self := new_map 2 |} with
+  | Ok _ w' => length (filter is_pull (log w')) = 4 /\ len (self w') = 2
+  | _ => False
+  end.
+Proof. vm_compute. split; reflexivity. Qed.
